@@ -300,6 +300,20 @@ def run(tier):
     for sh in common.pmap_shards(_worker, longs, shard_size=1, order_seed=rep.seed,
                                  recursion_limit=sys.getrecursionlimit()):
         rep.merge(sh)
+    # variables written on some paths and read later, with arms that leave the routine: whenever every path to a
+    # read passes a write (C17's reachability oracle), the program is valid and must be accepted
+    from ..recipe import gen_init
+    ig = gen_init.Grammar(["Sa", "La", "ret", "Sb", "Lb"], ["cin"])
+    inits = []
+    for k, b in ig.programs(4 if tier == "quick" else 5):
+        # (lenient oracle: code behind an exit counts as reachable - a read sitting in dead code may be refused)
+        if gen_init.uses_var(b) and "'ret'" in str(b) and not gen_init.uninit_vars(b, lenient=True)[0]:
+            for placement in ("main", "sub"):
+                inits.append((k, gen_init.make_program(b, placement), "init-exit", True, 4 if placement == "sub" else 2, {}))
+    rep.bounds["initialised_with_exits"] = len(inits)
+    _CFGS = [rb.Cfg(2, "A"), rb.Cfg(6, "A"), rb.Cfg(8, "A"), rb.Cfg(10, "A")]
+    for sh in common.pmap_shards(_worker, inits, order_seed=rep.seed, recursion_limit=sys.getrecursionlimit()):
+        rep.merge(sh)
     # call graphs: every graph over k routines x definition orders (which routine is compiled from where)
     from ..recipe import gen_sub
     graphs = [(3, gen_sub.call_graph(*a), "call-graph", True, 4, {}) for k in (2, 3) for a in gen_sub.call_graphs(k)]
